@@ -8,6 +8,7 @@ the theorem about the real code no longer holds (prove stage broken).
   hashset_copy_delegates / treeset_copy_delegates   the copy constructor delegates to another constructor (=> ~X() runs after the catch)
   datatable_fill_catch                          outer catch (...) of DataTable::pvFill                                                  91ea186
   multimap_copy_row / _try / _catch             body of the row loop of HashMultiMap(const HashMultiMap&, MemManager)                   84c9298
+  relocexec_body / _try / _loop / _catch        ObjectManager::pvRelocateExec(.., false_type): copy loop, executor, handler, final destroy   mutant M3
 
 The Walker (statement vocabulary) and the selection of the constructors are COPIED from props/C03/astfacts.py (C03's growth round; the
 "delegates" flag follows props/C14's Gen_CtorCatch) so that C04 does not depend on another property's files at run time.
@@ -161,9 +162,10 @@ def facts(tu, repo, root='/verif'):
     W = Walker(cx)
     E = cx.TranslationError
     F = {}
-    with concurrent.futures.ThreadPoolExecutor(max_workers=4) as ex:
+    with concurrent.futures.ThreadPoolExecutor(max_workers=5) as ex:
         jobs = {1: ex.submit(_dump, cx, repo, tu, 1, 'HashSet'), 2: ex.submit(_dump, cx, repo, tu, 2, 'TreeSet'),
-                3: ex.submit(_dump, cx, repo, tu, 3, 'HashMultiMap'), 4: ex.submit(_dump, cx, repo, tu, 4, 'DataTable')}
+                3: ex.submit(_dump, cx, repo, tu, 3, 'HashMultiMap'), 4: ex.submit(_dump, cx, repo, tu, 4, 'DataTable'),
+                5: ex.submit(_dump, cx, repo, tu, 5, 'ObjectManager')}
         objs = {k: v.result() for k, v in jobs.items()}
 
     def delegates(c):
@@ -214,6 +216,44 @@ def facts(tu, repo, root='/verif'):
         F['multimap_copy_catch'] = W.stmts(cc[0]) if cc else []
     else:
         F['multimap_copy_try'] = []; F['multimap_copy_catch'] = []
+
+    # ---- ObjectManager::pvRelocateExec(.., std::false_type) (not nothrow relocatable): copy loop, executor, handler, final destroy (mutant M3)
+    oms = []
+    def walk_(o):
+        if isinstance(o, dict):
+            if o.get('kind') == 'ClassTemplateSpecializationDecl' and o.get('name') == 'ObjectManager': oms.append(o)
+            for c_ in o.get('inner', []) or []: walk_(c_)
+    for o in objs[5]: walk_(o)
+    rx = [d for sp_ in oms for d in cx.method_decls(sp_, 'pvRelocateExec') if W.find_all(d, lambda n: n.get('kind') == 'CXXCatchStmt')]
+    if not rx:
+        raise E('ObjectManager::pvRelocateExec with a catch block (not nothrow relocatable) is not instantiated')
+    def qs(l): return '[' + '; '.join('"%s"' % x for x in l) + ']'
+    def stmt_a(st):   # like Walker.stmt, but a call keeps its argument paths
+        if cx.is_assert_stmt(st): return None
+        n = W.strip(st)
+        if n.get('kind') in ('CallExpr', 'CXXMemberCallExpr'):
+            return 'SCallArgs "%s" %s' % (W.call_name(n), qs([W.path(a) for a in n['inner'][1:]]))
+        return W.stmt(st)
+    def stmts_a(comp):
+        inner = comp.get('inner', []) if comp.get('kind') == 'CompoundStmt' else [comp]
+        return [x for x in (stmt_a(s_) for s_ in inner) if x is not None]
+    d = rx[0]
+    trs = W.find_all(d, lambda n: n.get('kind') == 'CXXTryStmt')
+    if len(trs) != 1: raise E('pvRelocateExec: exactly one try statement expected')
+    F['relocexec_body'] = stmts_a(W.body(d))
+    F['relocexec_try'] = stmts_a(trs[0]['inner'][0])
+    cc = [x for x in trs[0]['inner'][1].get('inner', []) if x.get('kind') == 'CompoundStmt']
+    if len(trs[0]['inner']) != 2 or not cc or any(isinstance(x, dict) and x.get('kind') == 'VarDecl' for x in trs[0]['inner'][1].get('inner', [])):
+        raise E('pvRelocateExec: a single catch (...) handler expected')
+    F['relocexec_catch'] = stmts_a(cc[0])
+    fl = W.find_all(trs[0]['inner'][0], lambda n: n.get('kind') == 'ForStmt')
+    if len(fl) != 1: raise E('pvRelocateExec: one for loop expected in the try block')
+    cond = W.strip(fl[0]['inner'][2]); inc = fl[0]['inner'][3]
+    if cond.get('kind') != 'BinaryOperator': raise E('pvRelocateExec: loop condition')
+    incs = [W.path(u['inner'][0]) for u in W.find_all(inc, lambda n: n.get('kind') == 'UnaryOperator' and n.get('opcode') == '++')] + \
+           [W.path(u['inner'][1]) for u in W.find_all(inc, lambda n: n.get('kind') == 'CXXOperatorCallExpr' and '"name": "operator++"' in json.dumps(n['inner'][0]))]
+    F['relocexec_loop'] = ['SCallArgs "%s" %s' % (cond.get('opcode'), qs([W.path(cond['inner'][0]), W.path(cond['inner'][1])])),
+                           'SCallArgs "++" %s' % qs(incs)] + stmts_a(fl[0]['inner'][4])
     return F
 
 
